@@ -25,7 +25,19 @@ def run_decoder(kind, pieces):
         out += d.flush() if d else b''
     except zlib.error:
         return None
+    except Exception as error:      # any other exception class is not what the decoders promise
+        return 'exception:' + type(error).__name__
     return out.hex()
+
+
+def run_gzip_uncompress(body, truncated):
+    """wpull.decompression.gzip_uncompress (used by the sitemap detector on a peeked prefix)"""
+    try:
+        return D.gzip_uncompress(body, truncated=truncated).hex()
+    except zlib.error:
+        return None
+    except Exception as error:
+        return 'exception:' + type(error).__name__
 
 
 def run_stream_glue(kind, pieces):
@@ -262,6 +274,8 @@ def main():
         r = {'stream': run_decoder(kind, pieces),
              'oneshot': run_decoder(kind, [body] if body else []),
              'glue': run_stream_glue(kind, pieces)}
+        if 'gen' not in case:
+            r['gunzip'] = [run_gzip_uncompress(body, False), run_gzip_uncompress(body, True)]
         if 'gen' in case:
             import hashlib
             for k in ('stream', 'oneshot', 'glue'):
